@@ -23,7 +23,7 @@ Record oquirks := {
   q_syntax_line_zero : bool;             (* syntax-error default line as the source has it, `lineno or K` (true) / 1 (false) *)
   q_text_omit_zero : bool;               (* text omits the line when 0 and the column when 0: `p:3` is ambiguous *)
   q_text_raw_newline : bool;             (* text prints newlines inside paths / messages raw *)
-  q_group_missing_config_ignored : bool; (* `thailint --config missing.yaml <cmd>` runs with defaults instead of exit 2 *)
+  q_group_missing_config_ignored : bool; (* `thailint --config missing.yaml <cmd>`: as the source has it, exit k iff it checks (true) / exit 2 (false) *)
   q_dry_empty_config_crashes : bool      (* `dry --config <empty file>`: as the source has it, crash unless guarded (true) / never (false) *)
 }.
 Definition ideal : oquirks := Build_oquirks false false false false false false.
@@ -316,7 +316,11 @@ Definition usage_outcome (q : oquirks) (cmd : string) (c : uclass) : outcome :=
   | UInvalidOption => OExit click_usage_exit
   | UBadProjectRoot => site "bad_project_root"
   | UBadInlineRules => site "bad_inline_rules"
-  | UGroupMissingConfig => if q_group_missing_config_ignored q then OPerformed else site "group_config_error"
+  | UGroupMissingConfig =>
+    (* flag on: as the source has it (Gen: the existence check every linter command passes through, if there is one) *)
+    if q_group_missing_config_ignored q
+    then match group_config_missing_exit with Some z => OExit z | None => OPerformed end
+    else site "group_config_error"
   | UEmptyConfig =>
     (* flag on: as the source has it (Gen: is the result of yaml.safe_load guarded with `or {}`?) *)
     if q_dry_empty_config_crashes q && negb dry_config_null_guard && String.eqb cmd "dry" then site "linting_error" else OPerformed
